@@ -469,3 +469,42 @@ func VerifC14_dsl_emit_family() {
 	}
 	verifReach("C14/emit/end")
 }
+
+// C17 — a run-time failure in a begin block is reported also when no record ever reaches the verb
+// (mlr -n, an empty file, head -n 0 upstream): the end-of-stream call returns the error (or ends the
+// process non-zero); with records it is reported at the first record.
+//verif:opts engine-only
+func VerifC17_begin_block_failure_is_reported_without_records() {
+	progs := []string{
+		verifDSL(`begin { int i = "abc" } end { @x = 1; emit @x }`),
+		verifDSL(`begin { var a = 1; var a = 2 } end { emit {"done": 1} }`),
+		verifDSL(`begin { @k = 1 } end { emit @k }`),
+	}
+	which := verifChoice("program", len(progs))
+	tr := verifPut(progs[which])
+	withRecord := verifChoice("with_record", 2) == 1
+	failed := false
+	code := verifCatch(func() {
+		ctx := types.NewContext()
+		idc, odc := make(chan bool, 1), make(chan bool, 8)
+		out := []*types.RecordAndContext{}
+		if withRecord {
+			if tr.Transform(types.NewRecordAndContext(c14Record(1), ctx), &out, idc, odc) != nil {
+				failed = true
+				return
+			}
+		}
+		if tr.Transform(types.NewEndOfStreamMarker(ctx), &out, idc, odc) != nil {
+			failed = true
+		}
+	})
+	if code != 0 {
+		failed = true
+	}
+	if which < 2 {
+		verifAssert(failed, "C17/begin/failure-in-a-begin-block-is-reported-even-without-records")
+	} else {
+		verifAssert(!failed, "C17/begin/no-spurious-failure")
+	}
+	verifReach("C17/begin/end")
+}
